@@ -2,8 +2,8 @@
 C16 — ROC confidence bands are well-formed envelopes of pointwise rectangles.
 
 Modelled and proved: `roc_with_ci`, `pointwise_band_ci`, `simultaneous_joint_region_ci`
-(SA/Model/RocCI.lean).  NOT modelled: `fixed_width_band_ci`; its clauses are evaluated on the
-implementation only (harness/props/c16.py).
+(SA/Model/RocCI.lean).  `fixed_width_band_ci`: see SA/Model/FixedWidth.lean and
+SA/Theorems/C16Fwb.lean.
 -/
 import SA.Theorems.C13
 import SA.Theorems.C15
